@@ -19,8 +19,15 @@
   sums and every tax group's base, amount and surcharge (as amounts: value and
   precision) are independent of the order of the rows.
   So is every category amount (`category_amount_perm_invariant`).
+  Included-tax removal (Model/CalcRemove.lean, Proofs/CalcRemove.lean):
+  `Invoice.RemoveIncludedTaxes` modelled statement by statement on the invoice
+  in memory (two or three `calculate` calls, rows rounded in place in between);
+  `remove_included_payable…`: payable = original total with tax, the residue
+  exactly the rounding field — outside the two domains where the code does not
+  do that, both exhibited as kernel-checked counter-examples; the flag, the
+  per-amount formula, "nothing to remove".
   Not proved (metamorphic checks on the real code only): order independence
-  of the tax total as a whole sum over categories, and `remove_included_payable`.
+  of the tax total as a whole sum over categories.
 -/
 import GoblVerif.Spec.C17
 import GoblVerif.Generated.CalcFacts
@@ -29,6 +36,8 @@ import GoblVerif.Proofs.CalcPerm
 import GoblVerif.Proofs.CalcInvert
 import GoblVerif.Proofs.CalcGroups
 import GoblVerif.Proofs.CalcPermTax
+import GoblVerif.Proofs.CalcRemove
+import GoblVerif.Proofs.CalcRemoveMore
 
 namespace GoblVerif.Props.C17
 open GoblVerif GoblVerif.Calc
@@ -222,6 +231,337 @@ example : (calcLine exactOps "EUR" 2 [] .precise (invertLine
       charges := [], breakdown := [], taxes := [] })).toOption.map (fun l => (l.sum, l.total)) =
     some (some ⟨-300150, 4⟩, some ⟨-270135, 4⟩) := by decide
 
+/-! ## removing included taxes (`Invoice.RemoveIncludedTaxes`, Model/CalcRemove.lean) -/
+
+/-- **What the removal does to an amount** (a unit price, a fixed line discount/charge amount, a
+fixed document discount/charge amount): the gross amount divided by (1 + rate), rounded half away from
+zero once, at two more decimals than the amount was stored with (`Upscale(2).Remove(percent)`).  The
+same statement for the tax summary's own removal is `Props.C02.included_tax_removed_with_own_percentage`. -/
+theorem remove_included_amount (a : Amount) (p : Pct) (hne : (factor p).value ≠ 0) :
+    (removeAt exactOps a p).exp = a.exp + 2 ∧
+    (removeAt exactOps a p).value = Spec.roundTo (a.exp + 2) (a.toRat / (1 + p.amount.toRat)) :=
+  removeAt_spec a p hne
+
+/-- non-vacuity: 21 % is not −100 %; 1.00 gross at 21 % is 0.8264 net -/
+example : (factor ⟨⟨21, 2⟩⟩).value ≠ 0 ∧ removeAt exactOps ⟨100, 2⟩ ⟨⟨21, 2⟩⟩ = ⟨8264, 4⟩ := by decide
+
+/-- **A line that carries the included category with a percentage and has a price**: the price and
+every line discount/charge amount go through `removeAt` with the combo's own percentage (sub-lines
+likewise), alternative prices are dropped, everything else — quantity, percentages, bases, rates, the
+tax combos themselves — is kept. -/
+theorem remove_included_line (k : String) (l : Line) (cb : Combo) (p : Pct) (it : Item) (pr : Amount)
+    (hf : l.taxes.find? (fun cb => cb.cat == k) = some cb) (hp : cb.percent = some p)
+    (hi : l.item = some it) (hpr : it.price = some pr) :
+    removeLineIncluded exactOps k l =
+      { l with item := some { it with alts := [], price := some (removeAt exactOps pr p) },
+               breakdown := l.breakdown.map (removeSubLine exactOps p),
+               discounts := l.discounts.map (removeLineAdj exactOps p),
+               charges := l.charges.map (removeLineAdj exactOps p) } :=
+  removeLineIncluded_priced k l cb p it pr hf hp hi hpr
+
+/-- every other line (no combo of the included category, an exempt one, no item, no price) is
+returned as it is -/
+theorem remove_included_line_untouched (k : String) (l : Line)
+    (h : ∀ cb p it pr, l.taxes.find? (fun cb => cb.cat == k) = some cb → cb.percent = some p →
+      l.item = some it → it.price = some pr → False) :
+    removeLineIncluded exactOps k l = l :=
+  removeLineIncluded_untouched k l h
+
+/-- document discounts and charges: the amount only, and only when the row carries the category -/
+theorem remove_included_row (k : String) (x : DocAdj) (cb : Combo) (p : Pct)
+    (hf : x.taxes.find? (fun cb => cb.cat == k) = some cb) (hp : cb.percent = some p) :
+    removeAdjIncluded exactOps k x = { x with amount := removeAt exactOps x.amount p } :=
+  removeAdjIncluded_carrying k x cb p hf hp
+
+theorem remove_included_row_untouched (k : String) (x : DocAdj)
+    (h : ∀ cb p, x.taxes.find? (fun cb => cb.cat == k) = some cb → cb.percent = some p → False) :
+    removeAdjIncluded exactOps k x = x :=
+  removeAdjIncluded_untouched k x h
+
+/-- **`remove_included_clears_flag`.**  On an invoice with `prices_include = k`, whatever
+`removeIncludedTaxes` returns without error either has `prices_include` cleared — and then its totals,
+if any, carry no `tax_included`: no row is treated as including a tax any more — or it is the case
+"nothing to calculate" (no totals), in which the function returns before touching the flag. -/
+theorem remove_included_clears_flag (m m' : Mem) (k : String) (hk : m.doc.includes = some k)
+    (h : removeIncludedMem exactOps m = .ok m') :
+    (m'.doc.includes = none ∧ ∀ t', m'.totals = some t' → t'.taxIncluded = none) ∨
+    (m'.totals = none ∧ m'.doc.includes = some k) :=
+  removeIncludedMem_flag m m' k hk h
+
+/-- without `prices_include` the function does nothing (`!canRemoveIncludedTaxes`) -/
+theorem remove_included_needs_flag (m : Mem) (h : m.doc.includes = none) :
+    removeIncludedMem exactOps m = .ok m :=
+  removeIncludedMem_without_flag m h
+
+/-- **Payable after the removal, general form.**  `removeFrom k m t` is `removeIncludedTaxes` from
+the point where the original total with tax `t.totalWithTax` is known, for *any* document in memory
+(breakdowns included).  If the rows of the document after the removal are reproduced by
+calculate ∘ present ∘ calculate (`RowsFix`: the only thing the known finding
+`remove-included-fixed-document-row` violates), then: the result has totals; `prices_include` is
+cleared; the rounding field is exactly `original − new` presented total with tax when the two differ and
+absent when they do not; and the amount payable is the original total with tax unless the residue is
+carried across zero (the new presented total with tax non-zero, the original zero or of the other
+sign: the known finding `remove-included-residue-across-zero`). -/
+theorem remove_included_payable_core (k : String) (m m' : Mem) (t : Totals)
+    (hc : t.totalWithTax.exp = m.doc.c)
+    (h : removeFrom exactOps k m t = .ok m')
+    (hfix : ∀ p, pre exactOps (removedDoc k m.doc) = .ok p → RowsFix (removedDoc k m.doc) p) :
+    ∃ t', m'.totals = some t' ∧ m'.doc.includes = none ∧ t'.taxIncluded = none ∧
+      t'.totalWithTax.exp = m.doc.c ∧ t'.payable.exp = m.doc.c ∧
+      t'.rounding = (if t'.totalWithTax = t.totalWithTax then none
+                     else some ⟨t.totalWithTax.value - t'.totalWithTax.value, m.doc.c⟩) ∧
+      ((t'.totalWithTax.value = 0 ∨ 0 < t.totalWithTax.value * t'.totalWithTax.value) →
+        t'.payable = t.totalWithTax) :=
+  removeFrom_payable k m m' t hc h hfix
+
+/-- **`remove_included_payable`.**  For every document (lines with or without breakdown into
+sub-lines, items in any currency, any line and document discounts and charges, both rounding rules):
+
+Hypotheses, all on the input document: `prices_include = k`; no externally supplied rounding (the
+document has no totals yet, so the function calculates first — exactly what `Calculate` followed by
+`RemoveIncludedTaxes` does); the model's well-formedness conditions (`LineWF`: an item priced in the
+document's currency is given with that currency's decimals, a sub-line without item carries no figures;
+`RatesWF`: an exchange rate into the document's currency is given with that currency's decimals); and
+the *visible exclusion of the known finding* `remove-included-fixed-document-row`: the rounding rule is
+`currency`, or no document discount/charge with a fixed amount carries the included category with a
+percentage (`FixedIncludedRow`).  The other known finding about stored amounts,
+`invert-after-in-place-rounding` (fixed amounts finer than presented), is *not* excluded: the original
+total with tax is the one of the same first calculation the removal starts from, so what that
+calculation rounds in place does not matter here.
+
+Conclusion: if `calculate d = ok out` with totals `t` and `removeIncludedDoc d = ok out'`, then `out'`
+has totals `t'` without `tax_included`, presented with the currency's decimals; `t'.rounding` is
+exactly `t.totalWithTax − t'.totalWithTax` when they differ and `none` otherwise; and
+`t'.payable = t.totalWithTax` provided the residue is not carried across zero (`t'.totalWithTax` is
+zero, or has the strict sign of `t.totalWithTax`) — the complement is the known finding
+`remove-included-residue-across-zero`, exhibited by `remove_included_residue_across_zero` below. -/
+theorem remove_included_payable (d : Doc) (k : String) (out out' : Out) (t : Totals)
+    (hk : d.includes = some k) (hr : d.rounding = none)
+    (hwf : ∀ l ∈ d.lines, LineWF d.cur d.c l) (hrates : RatesWF d.c d.rates)
+    (hrows : d.rule = .currency ∨ ∀ x ∈ d.discounts ++ d.charges, ¬ FixedIncludedRow k x)
+    (h1 : calculate exactOps d = .ok out) (ht : out.totals = some t)
+    (h2 : removeIncludedDoc exactOps d = .ok out') :
+    ∃ t', out'.totals = some t' ∧ t'.taxIncluded = none ∧
+      t'.totalWithTax.exp = d.c ∧ t'.payable.exp = d.c ∧
+      t'.rounding = (if t'.totalWithTax = t.totalWithTax then none
+                     else some ⟨t.totalWithTax.value - t'.totalWithTax.value, d.c⟩) ∧
+      ((t'.totalWithTax.value = 0 ∨ 0 < t.totalWithTax.value * t'.totalWithTax.value) →
+        t'.payable = t.totalWithTax) :=
+  removeIncludedDoc_payable d k out out' t hk hr hwf hrates hrows h1 ht h2
+
+/-- **`RemoveIncludedTaxes` returns normally** in the domain of `remove_included_payable`: under the
+same hypotheses, none of the model's error exits is taken — no recalculation fails, and the totals the
+function dereferences after its first recalculation are never nil (`RemErr.nilTotals`, a panic in the
+Go code).  So the hypothesis `removeIncludedDoc d = ok out'` of `remove_included_payable` always holds
+there and the theorem is not true for want of results. -/
+theorem remove_included_returns_normally (d : Doc) (k : String) (out : Out) (t : Totals)
+    (hk : d.includes = some k) (hr : d.rounding = none)
+    (hwf : ∀ l ∈ d.lines, LineWF d.cur d.c l) (hrates : RatesWF d.c d.rates)
+    (hrows : d.rule = .currency ∨ ∀ x ∈ d.discounts ++ d.charges, ¬ FixedIncludedRow k x)
+    (h1 : calculate exactOps d = .ok out) (ht : out.totals = some t) :
+    ∃ out', removeIncludedDoc exactOps d = .ok out' :=
+  removeIncludedDoc_succeeds d k out t hk hr hwf hrates hrows h1 ht
+
+/-- what the harness runs, `Calculate` and then `RemoveIncludedTaxes` with the totals present
+(`calculateThenRemove`, driver request `rm`), is `removeIncludedDoc`, the function the theorems are
+about, whenever prices include a tax, no rounding was supplied and the calculation has totals -/
+theorem calculate_then_remove (d : Doc) (k : String) (out : Out) (t : Totals)
+    (hk : d.includes = some k) (hr : d.rounding = none)
+    (h1 : calculate exactOps d = .ok out) (ht : out.totals = some t) :
+    (calculateThenRemove exactOps d).map Mem.out = removeIncludedDoc exactOps d :=
+  calculateThenRemove_eq d k out t hk hr h1 ht
+
+/-- every line, with or without sub-lines, after a calculation and after the removal that follows it, is reproduced by
+calculate ∘ present ∘ calculate (`LineFix`): the fact about lines behind `remove_included_payable` -/
+theorem removed_line_is_fixpoint (cur : String) (c : ℕ) (rates : List XRate) (r : Rule) (k : String) (l0 l1 : Line)
+    (hwf : LineWF cur c l0) (hr : RatesWF c rates) (h : calcLine exactOps cur c rates r l0 = .ok l1) :
+    LineFix cur c rates r (removeLineIncluded exactOps k (roundLine exactOps l1)) :=
+  lineFix_of_settled _ _ _ _ _ (settled_remove _ _ k _ (settled_of_calcLine _ _ _ _ l0 l1 hwf hr h))
+
+/-- what is looked at in the examples: presented total with tax, rounding, payable -/
+def removalView (r : Except RemErr Out) : Option (Amount × Option Amount × Amount) :=
+  match r with
+  | .ok o => o.totals.map (fun t => (t.totalWithTax, t.rounding, t.payable))
+  | .error _ => none
+
+/-- non-vacuity: `sampleDoc` (a 10 % line discount, a 5 % document discount carrying VAT, an advance,
+21 % VAT included) meets every hypothesis of `remove_included_payable` … -/
+example : sampleDoc.includes = some "VAT" ∧ sampleDoc.rounding = none ∧
+    (∀ l ∈ sampleDoc.lines, LineWF sampleDoc.cur sampleDoc.c l) ∧ RatesWF sampleDoc.c sampleDoc.rates ∧
+    (sampleDoc.rule = .currency ∨ ∀ x ∈ sampleDoc.discounts ++ sampleDoc.charges, ¬ FixedIncludedRow "VAT" x) := by
+  refine ⟨rfl, rfl, ?_, ?_, Or.inr ?_⟩
+  · intro l hl
+    simp only [sampleDoc, List.mem_singleton] at hl
+    subst hl
+    refine ⟨?_, by simp⟩
+    intro it hi
+    simp only [Option.some.injEq] at hi
+    subst hi
+    intro _
+    exact Nat.le_refl _
+  · intro r hr
+    simp [sampleDoc] at hr
+  · intro x hx
+    simp only [sampleDoc, List.append_nil, List.mem_singleton] at hx
+    subst hx
+    rintro ⟨h, _⟩
+    exact absurd (h _ rfl) (by decide)
+
+/-- … total with tax 25.66 before; the removal leaves no residue here: payable 25.66, no rounding -/
+example : ((calculate exactOps sampleDoc).toOption.bind (·.totals)).map (·.totalWithTax) = some ⟨2566, 2⟩ ∧
+    removalView (removeIncludedDoc exactOps sampleDoc) = some (⟨2566, 2⟩, none, ⟨2566, 2⟩) := by decide
+
+/-- 100 × 1.00 with 21 % VAT included, and (optionally) a fixed document charge of 0.01 carrying the
+same tax -/
+def residueDoc (r : Rule) (withCharge : Bool) : Doc :=
+  let vat : Combo := { cat := "VAT", country := "", key := "", percent := some ⟨⟨21, 2⟩⟩, surcharge := none, ext := "", retained := false }
+  { cur := "EUR", c := 2, rule := r, includes := some "VAT",
+    lines := [{ qty := ⟨100, 0⟩, item := some { price := some ⟨100, 2⟩, cur := "", sub := 2, alts := [] },
+                discounts := [], charges := [], breakdown := [], taxes := [vat] }],
+    discounts := [],
+    charges := if withCharge then [{ percent := none, base := none, amount := ⟨1, 2⟩, taxes := [vat] }] else [],
+    rates := [], rounding := none, hasPayment := false, advances := [], dues := [] }
+
+/-- non-vacuity with a residue: 100.00 before; the net price 0.8264 × 100 plus 21 % is 99.99; the
+residue 0.01 is recorded and payable is 100.00 (the document has no document rows, so `hrows` holds) -/
+example : (∀ x ∈ (residueDoc .precise false).discounts ++ (residueDoc .precise false).charges, ¬ FixedIncludedRow "VAT" x) ∧
+    ((calculate exactOps (residueDoc .precise false)).toOption.bind (·.totals)).map (·.totalWithTax) = some ⟨10000, 2⟩ ∧
+    removalView (removeIncludedDoc exactOps (residueDoc .precise false)) = some (⟨9999, 2⟩, some ⟨1, 2⟩, ⟨10000, 2⟩) := by
+  refine ⟨?_, by decide, by decide⟩
+  intro x hx
+  simp [residueDoc] at hx
+
+/-- a line priced by a breakdown (2 × 10.00 and 1 × 5.005, the second with a fixed discount of
+0.015), with a fixed line discount of 0.105 and 21 % VAT included -/
+def breakdownDoc : Doc :=
+  let vat : Combo := { cat := "VAT", country := "", key := "", percent := some ⟨⟨21, 2⟩⟩, surcharge := none, ext := "", retained := false }
+  { cur := "EUR", c := 2, rule := .precise, includes := some "VAT",
+    lines := [{ qty := ⟨333, 0⟩, item := some { price := none, cur := "", sub := 2, alts := [] },
+                discounts := [{ percent := none, base := none, amount := ⟨105, 3⟩, rate := none, quantity := none }],
+                charges := [],
+                breakdown := [{ qty := ⟨2, 0⟩, item := some { price := some ⟨1000, 2⟩, cur := "", sub := 2, alts := [] },
+                                discounts := [], charges := [] },
+                              { qty := ⟨1, 0⟩, item := some { price := some ⟨5005, 3⟩, cur := "", sub := 2, alts := [] },
+                                discounts := [{ percent := none, base := none, amount := ⟨15, 3⟩, rate := none, quantity := none }],
+                                charges := [] }],
+                taxes := [vat] }],
+    discounts := [], charges := [], rates := [], rounding := none, hasPayment := false, advances := [], dues := [] }
+
+/-- non-vacuity for lines with a breakdown: `breakdownDoc` meets the hypotheses of
+`remove_included_payable`; 8321.57 before, 8321.59 after the removal, the residue −0.02 recorded,
+payable 8321.57 -/
+example : (∀ l ∈ breakdownDoc.lines, LineWF breakdownDoc.cur breakdownDoc.c l) ∧ RatesWF breakdownDoc.c breakdownDoc.rates ∧
+    (∀ x ∈ breakdownDoc.discounts ++ breakdownDoc.charges, ¬ FixedIncludedRow "VAT" x) ∧
+    ((calculate exactOps breakdownDoc).toOption.bind (·.totals)).map (·.totalWithTax) = some ⟨832157, 2⟩ ∧
+    removalView (removeIncludedDoc exactOps breakdownDoc) = some (⟨832159, 2⟩, some ⟨-2, 2⟩, ⟨832157, 2⟩) := by
+  refine ⟨?_, ?_, ?_, by decide, by decide⟩
+  · intro l hl
+    simp only [breakdownDoc, List.mem_singleton] at hl
+    subst hl
+    refine ⟨?_, ?_⟩
+    · intro it hi
+      simp only [Option.some.injEq] at hi
+      subst hi
+      intro _
+      exact Nat.le_refl _
+    · intro sl hsl
+      simp only [List.mem_cons, List.not_mem_nil, or_false] at hsl
+      rcases hsl with rfl | rfl
+      · exact ⟨by simp, fun it hi => by simp only [Option.some.injEq] at hi; subst hi; intro _; exact Nat.le_refl _⟩
+      · exact ⟨by simp, fun it hi => by simp only [Option.some.injEq] at hi; subst hi; intro _; exact Nat.le_refl _⟩
+  · intro r hr
+    simp [breakdownDoc] at hr
+  · intro x hx
+    simp [breakdownDoc] at hx
+
+/-- **Nothing to remove.**  If no line, document discount or document charge carries a combo of the
+included category, and the document is one whose second calculation reproduces the first
+(`InputStable`: every line `LineStable` — no fixed line discount/charge amount finer than the line is
+presented with, the visible exclusion of the known finding `invert-after-in-place-rounding` — or already
+in the shape a calculation leaves; every fixed document discount/charge amount not finer than it is
+presented with, unless the rule is `currency`; fixed advances likewise), then `RemoveIncludedTaxes`
+returns exactly the calculated document: every row, every total, no rounding.  Together with
+`remove_included_clears_flag`: the removal changes nothing but the flag. -/
+theorem remove_included_nothing_to_remove (d : Doc) (k : String) (out : Out) (t : Totals)
+    (hk : d.includes = some k) (hr : d.rounding = none) (hs : InputStable d) (hn : NothingIncluded k d)
+    (h1 : calculate exactOps d = .ok out) (ht : out.totals = some t) :
+    removeIncludedDoc exactOps d = .ok out :=
+  removeIncludedDoc_nothing d k out t hk hr hs hn h1 ht
+
+/-- non-vacuity: `sampleDoc` with its combos moved to IGIC while prices include VAT -/
+def nothingDoc : Doc :=
+  let igic : Combo := { cat := "IGIC", country := "", key := "", percent := some ⟨⟨7, 2⟩⟩, surcharge := none, ext := "", retained := false }
+  { sampleDoc with lines := sampleDoc.lines.map (fun l => { l with taxes := [igic] }),
+                   discounts := sampleDoc.discounts.map (fun x => { x with taxes := [igic] }) }
+
+example : InputStable nothingDoc ∧ NothingIncluded "VAT" nothingDoc ∧
+    ((calculate exactOps nothingDoc).toOption.bind (·.totals)).map (fun t => (t.totalWithTax, t.rounding, t.payable)) =
+      removalView (removeIncludedDoc exactOps nothingDoc) ∧
+    removalView (removeIncludedDoc exactOps nothingDoc) = some (⟨2746, 2⟩, none, ⟨2746, 2⟩) := by
+  refine ⟨⟨?_, ?_, ?_⟩, ⟨?_, ?_⟩, by decide, by decide⟩
+  · intro l hl
+    simp only [nothingDoc, sampleDoc, List.map_cons, List.map_nil, List.mem_singleton] at hl
+    subst hl
+    refine Or.inl (Or.inl ⟨rfl, ?_⟩)
+    refine ⟨_, rfl, by decide, Nat.le_refl _, ?_, ?_⟩
+    · intro d hd
+      simp only [List.mem_singleton] at hd
+      subst hd
+      exact Or.inl ⟨_, rfl, by decide⟩
+    · intro d hd
+      simp at hd
+  · intro x hx
+    simp only [nothingDoc, sampleDoc, List.map_cons, List.map_nil, List.append_nil, List.mem_singleton] at hx
+    subst hx
+    exact Or.inr (Or.inl ⟨_, rfl, by decide⟩)
+  · intro a ha
+    simp only [nothingDoc, sampleDoc, List.mem_singleton] at ha
+    subst ha
+    exact Or.inl rfl
+  · intro l hl
+    simp only [nothingDoc, sampleDoc, List.map_cons, List.map_nil, List.mem_singleton] at hl
+    subst hl
+    unfold NoCat
+    decide
+  · intro x hx
+    simp only [nothingDoc, sampleDoc, List.map_cons, List.map_nil, List.append_nil, List.mem_singleton] at hx
+    subst hx
+    unfold NoCat
+    decide
+
+/-- a document whose total with tax is 0 (JPY: 1.00 gross at 50 % VAT included, and −0.5001 untaxed)
+and whose unrounded total after the removal is exactly 0.5000 -/
+def acrossZeroDoc : Doc :=
+  { cur := "JPY", c := 0, rule := .precise, includes := some "VAT",
+    lines := [{ qty := ⟨1, 0⟩, item := some { price := some ⟨100, 2⟩, cur := "", sub := 0, alts := [] },
+                discounts := [], charges := [], breakdown := [],
+                taxes := [{ cat := "VAT", country := "", key := "", percent := some ⟨⟨50, 2⟩⟩,
+                            surcharge := none, ext := "", retained := false }] },
+              { qty := ⟨1, 0⟩, item := some { price := some ⟨-5001, 4⟩, cur := "", sub := 0, alts := [] },
+                discounts := [], charges := [], breakdown := [], taxes := [] }],
+    discounts := [], charges := [], rates := [], rounding := none, hasPayment := false, advances := [], dues := [] }
+
+/-- **Counter-example: the residue carried across zero** (known finding
+`remove-included-residue-across-zero`, reproduced on the real code by the harness).  The document
+meets every hypothesis of `remove_included_payable` except the sign condition: its total with
+tax is 0; after the removal the total with tax is presented as 1 (0.5000 rounded half away from zero),
+the rounding field is −1 as it should be, and `calculate` presents payable = Rescale(0.5000 − 1) = −1,
+not 0: rounding half away from zero does not commute with a shift across zero. -/
+theorem remove_included_residue_across_zero :
+    ((calculate exactOps acrossZeroDoc).toOption.bind (·.totals)).map (·.totalWithTax) = some ⟨0, 0⟩ ∧
+    removalView (removeIncludedDoc exactOps acrossZeroDoc) = some (⟨1, 0⟩, some ⟨-1, 0⟩, ⟨-1, 0⟩) := by decide
+
+/-- **Counter-example: the fixed document row** (known finding `remove-included-fixed-document-row`;
+`residueDoc … true` is a `FixedIncludedRow` document).  Under the `precise` rule: total with tax 100.01;
+the first recalculation gives 100.00 and records 0.01, but it also presents the charge
+0.0100 / 1.21 = 0.0083 as 0.01 in place, so the second recalculation finds 100.01 and pays 100.02.  Under
+the `currency` rule (first disjunct of `hrows`) the same document keeps its 100.01. -/
+theorem remove_included_fixed_row_counterexample :
+    ((calculate exactOps (residueDoc .precise true)).toOption.bind (·.totals)).map (·.totalWithTax) = some ⟨10001, 2⟩ ∧
+    removalView (removeIncludedDoc exactOps (residueDoc .precise true)) = some (⟨10001, 2⟩, some ⟨1, 2⟩, ⟨10002, 2⟩) ∧
+    ((calculate exactOps (residueDoc .currency true)).toOption.bind (·.totals)).map (·.totalWithTax) = some ⟨10001, 2⟩ ∧
+    removalView (removeIncludedDoc exactOps (residueDoc .currency true)) = some (⟨10001, 2⟩, none, ⟨10001, 2⟩) := by decide
+
 /-! ## pinned source shapes (regenerated facts; tools/pin_calc_expect.py) -/
 
 namespace ExpectCalc
@@ -251,6 +591,44 @@ theorem conds_Charge_removeIncludedTaxes_as_modelled : conds_Charge_removeInclud
     ["rate == nil || rate.Percent == nil"] := rfl
 theorem stmts_Charge_removeIncludedTaxes_as_modelled : stmts_Charge_removeIncludedTaxes =
     ["accuracy := defaultTaxRemovalAccuracy", "rate := m.Taxes.Get(cat)", "return m", "m2 := *m", "m2.Amount = m2.Amount.Upscale(accuracy).Remove(*rate.Percent)", "return &m2"] := rfl
+theorem calls_Invoice_RemoveIncludedTaxes_as_modelled : calls_Invoice_RemoveIncludedTaxes =
+    ["removeIncludedTaxes"] := rfl
+theorem conds_Invoice_RemoveIncludedTaxes_as_modelled : conds_Invoice_RemoveIncludedTaxes =
+    [] := rfl
+theorem stmts_Invoice_RemoveIncludedTaxes_as_modelled : stmts_Invoice_RemoveIncludedTaxes =
+    ["return removeIncludedTaxes(inv)"] := rfl
+theorem calls_canRemoveIncludedTaxes_as_modelled : calls_canRemoveIncludedTaxes =
+    ["getTax", "IsEmpty", "getTax"] := rfl
+theorem conds_canRemoveIncludedTaxes_as_modelled : conds_canRemoveIncludedTaxes =
+    [] := rfl
+theorem stmts_canRemoveIncludedTaxes_as_modelled : stmts_canRemoveIncludedTaxes =
+    ["return doc.getTax() != nil && !doc.getTax().PricesInclude.IsEmpty()"] := rfl
+theorem calls_removeLineIncludedTaxes_as_modelled : calls_removeLineIncludedTaxes =
+    ["Get", "Remove", "Upscale", "removeSubLinesIncludedTaxes", "removeLineDiscountsIncludedTaxes", "removeLineChargesIncludedTaxes", "removeSubLinesIncludedTaxes"] := rfl
+theorem conds_removeLineIncludedTaxes_as_modelled : conds_removeLineIncludedTaxes =
+    ["rate == nil || rate.Percent == nil", "line.Item == nil || line.Item.Price == nil"] := rfl
+theorem stmts_removeLineIncludedTaxes_as_modelled : stmts_removeLineIncludedTaxes =
+    ["accuracy := defaultTaxRemovalAccuracy", "rate := line.Taxes.Get(cat)", "return line", "return line", "l2 := *line", "l2i := *line.Item", "l2i.AltPrices = nil", "price := line.Item.Price.Upscale(accuracy).Remove(*rate.Percent)", "l2i.Price = &price", "l2.Breakdown = removeSubLinesIncludedTaxes(line.Breakdown, rate, accuracy)", "l2.Discounts = removeLineDiscountsIncludedTaxes(line.Discounts, rate, accuracy)", "l2.Charges = removeLineChargesIncludedTaxes(line.Charges, rate, accuracy)", "l2.Substituted = removeSubLinesIncludedTaxes(line.Substituted, rate, accuracy)", "l2.Item = &l2i", "return &l2"] := rfl
+theorem calls_removeSubLinesIncludedTaxes_as_modelled : calls_removeSubLinesIncludedTaxes =
+    ["len", "make", "len", "Remove", "Upscale", "removeLineDiscountsIncludedTaxes", "removeLineChargesIncludedTaxes"] := rfl
+theorem conds_removeSubLinesIncludedTaxes_as_modelled : conds_removeSubLinesIncludedTaxes =
+    ["len(sls) == 0", "sl == nil || sl.Item == nil || sl.Item.Price == nil"] := rfl
+theorem stmts_removeSubLinesIncludedTaxes_as_modelled : stmts_removeSubLinesIncludedTaxes =
+    ["return nil", "rows := make([]*SubLine, len(sls))", "rows[i] = sl", "sl2 := *sl", "sl2i := *sl.Item", "sl2i.AltPrices = nil", "price := sl.Item.Price.Upscale(exp).Remove(*tc.Percent)", "sl2i.Price = &price", "sl2.Discounts = removeLineDiscountsIncludedTaxes(sl.Discounts, tc, exp)", "sl2.Charges = removeLineChargesIncludedTaxes(sl.Charges, tc, exp)", "sl2.Item = &sl2i", "rows[i] = &sl2", "return rows"] := rfl
+theorem calls_removeLineDiscountsIncludedTaxes_as_modelled : calls_removeLineDiscountsIncludedTaxes =
+    ["len", "make", "len", "Remove", "Upscale"] := rfl
+theorem conds_removeLineDiscountsIncludedTaxes_as_modelled : conds_removeLineDiscountsIncludedTaxes =
+    ["len(discounts) == 0"] := rfl
+theorem stmts_removeLineDiscountsIncludedTaxes_as_modelled : stmts_removeLineDiscountsIncludedTaxes =
+    ["return nil", "rows := make([]*LineDiscount, len(discounts))", "d := *v", "d.Amount = d.Amount.Upscale(exp).Remove(*tc.Percent)", "rows[i] = &d", "return rows"] := rfl
+theorem calls_removeLineChargesIncludedTaxes_as_modelled : calls_removeLineChargesIncludedTaxes =
+    ["len", "make", "len", "Remove", "Upscale"] := rfl
+theorem conds_removeLineChargesIncludedTaxes_as_modelled : conds_removeLineChargesIncludedTaxes =
+    ["len(charges) == 0"] := rfl
+theorem stmts_removeLineChargesIncludedTaxes_as_modelled : stmts_removeLineChargesIncludedTaxes =
+    ["return nil", "rows := make([]*LineCharge, len(charges))", "d := *v", "d.Amount = d.Amount.Upscale(exp).Remove(*tc.Percent)", "rows[i] = &d", "return rows"] := rfl
+theorem const_defaultTaxRemovalAccuracy_as_modelled : const_defaultTaxRemovalAccuracy = toString removalAccuracy := by decide
+theorem const_linePrecisionExtra_as_modelled : const_linePrecisionExtra = toString E := by decide
 
 end ExpectCalc
 
